@@ -34,12 +34,14 @@ func gen(tier string, r *lib.Rand, emit func(string)) {
 	emit(alloclib.AllocCase(alloclib.Prog{}, good[0]))
 	emit(alloclib.InterpCase(alloclib.Prog{}, "x", "z", false, one))
 	emit(alloclib.InterpCase(alloclib.Prog{}, "x", "z", true, one))
+	rot := 0
 	for n := 1; n <= full; n++ {
 		alloclib.OpLists(n, func(ops addchain.Program) {
 			p := alloclib.Decompiled(ops)
 			emitAll(emit, p, good[0], one)
 			emit(alloclib.AllocCase(p, good[1]))
-			emit(alloclib.AllocCase(p, good[2]))
+			rot++
+			emit(alloclib.AllocCase(p, good[2+rot%(len(good)-2)]))
 		})
 	}
 	k := 0
@@ -101,7 +103,7 @@ func gen(tier string, r *lib.Rand, emit func(string)) {
 			p := alloclib.Decompiled(ops)
 			for _, h := range alloclib.Histories {
 				if n <= 3 || hk%5 == 0 {
-					emit(alloclib.HistoryCase(p, good[0], good[1], h))
+					emit(alloclib.HistoryCase(p, good[hk%len(good)], good[(hk+1)%len(good)], h))
 				}
 				hk++
 			}
@@ -186,6 +188,25 @@ func gen(tier string, r *lib.Rand, emit func(string)) {
 		emit(alloclib.InterpCase(rn, "x", "z", r.Bool(), one))
 		emit(alloclib.InterpCase(alloclib.Rename(r, q, pool), pool[r.Intn(len(pool))], pool[r.Intn(len(pool))], r.Bool(), big.NewInt(int64(r.Range(-3, 9)))))
 		emit(alloclib.AllocCase(rn, c))
+	}
+	for k, fm := range alloclib.UnsupportedFormats {
+		emit(alloclib.AllocCase(alloclib.RandomProgram(r, r.Range(1, 6), 20), alloclib.Cfg{In: "x", Out: "z", Format: fm}))
+		if k%4 == 0 {
+			emit(alloclib.AllocCase(alloclib.Prog{}, alloclib.Cfg{In: "x", Out: "z", Format: fm}))
+		}
+	}
+	// every supported format on programs with many temporaries (counter beyond one digit in every base)
+	for _, c := range good {
+		for _, w := range []int{3, 11, 18, 35} {
+			var p alloclib.Prog
+			for k := 1; k <= w; k++ {
+				p = append(p, alloclib.Ins{Kind: 'a', Out: alloclib.Opd{Idx: k}, X: alloclib.Opd{Idx: 0}, Y: alloclib.Opd{Idx: k - 1}})
+			}
+			for k := w + 1; k <= 2*w; k++ {
+				p = append(p, alloclib.Ins{Kind: 'a', Out: alloclib.Opd{Idx: k}, X: alloclib.Opd{Idx: k - w}, Y: alloclib.Opd{Idx: k - 1}})
+			}
+			emitAll(emit, p, c, one)
+		}
 	}
 	for _, c := range alloclib.BadCfgs {
 		for n := 1; n <= 3; n++ {
